@@ -233,9 +233,16 @@ def replay(rec):
             d3.panel('id')
             d3.remove(ex.Variable('id') == float(rec['map'][0][0]))
             f3 = make_formula('none', True)
-            direct = [float(v) for v in f3.get_value_c(database=d3, number_of_draws=rec['R'], prepare_ids=True)]
-            bg3 = bio.BIOGEME(d3, make_formula('none', True), number_of_draws=rec['R'])
-            return direct, float(bg3.calculate_likelihood([float(BVAL)], scaled=False)), int(d3.get_sample_size())
+            # either entry point may be the FIRST one to see the edited table
+            if (len(ids) + sum(ids)) % 2 == 0:
+                direct = [float(v) for v in f3.get_value_c(database=d3, number_of_draws=rec['R'], prepare_ids=True)]
+                bg3 = bio.BIOGEME(d3, make_formula('none', True), number_of_draws=rec['R'])
+                like = float(bg3.calculate_likelihood([float(BVAL)], scaled=False))
+            else:
+                bg3 = bio.BIOGEME(d3, make_formula('none', True), number_of_draws=rec['R'])
+                like = float(bg3.calculate_likelihood([float(BVAL)], scaled=False))
+                direct = [float(v) for v in f3.get_value_c(database=d3, number_of_draws=rec['R'], prepare_ids=True)]
+            return direct, like, int(d3.get_sample_size())
 
         st3, obs3 = forked(after_remove, timeout=120)
         n += 1
